@@ -321,7 +321,13 @@ def resolve(ad, aop, model, U):
             c["ws"] = c["ws"][:-1]
         c["es"] = ad.sanitize_batch(c["es"], model)
         if c["ws"] is not None and ad.ambiguous_weighted_batch(c["es"]):
-            return None
+            if ad.permuted_repeat(c["es"]) and len(c["ws"]) == len(c["es"]):
+                # one hyperedge twice in different node orders, with weights: refusing the batch
+                # (a stricter duplicate test) and accepting it with the weights summed are both
+                # allowed -- anything else (e.g. a weight counted twice) is not
+                c["either"] = True
+            else:
+                return None
         c["metas"] = None
         if aop["metas"] is not None:
             c["metas"] = (aop["metas"] + [{} for _ in c["es"]])[: len(c["es"])]
@@ -739,6 +745,11 @@ def check_history(ad, case, ctx):
             raise
         except Exception as e:  # the library rejected (or crashed on) the operation
             raised = e
+        if c.get("either") and accepted and isinstance(raised, ValueError):
+            accepted = False   # the allowed refusal: the state must be unchanged
+            ctx.label("permuted_repeat_batch_refused")
+        elif c.get("either") and accepted:
+            ctx.label("permuted_repeat_batch_accepted")
         ctx.label("op:" + c["op"])
         if aop.get("same_node_set_batch") and c["op"] == "add_edges" and len(c["es"]) >= 2:
             ctx.label(("accepted" if accepted else "rejected") + "_batch_listing_one_node_set_repeatedly"
